@@ -83,9 +83,12 @@ def _make_env(P, ae: bool, lc: bool, cache_size: int, tape: Tape):
     return env
 
 
+TG = [0]
+
+
 async def _render(env, entry: str, api: int, data: dict, fault_exc):
     try:
-        tmpl = env.get_template(entry)
+        tmpl = env.get_template(entry, globals={"tg": TG[0]} if (TG[0] and entry == "main") else None)
         if api == 0:
             return ("ok", scrub(await tmpl.render_async(**data)))
         chunks = []
@@ -170,7 +173,9 @@ def run(tape: Tape) -> Outcome:
     cache_size = CACHE_SIZES[tape.draw(len(CACHE_SIZES))]
     tagged_ok = tape.draw(8) == 7
     size = 2 + tape.draw(4)
-    P = Gen(tape, is_async=True, loopcontrols=lc, size=size, allow_module_state=tagged_ok, env_globals=True).generate()
+    P = Gen(tape, is_async=True, loopcontrols=lc, size=size, allow_module_state=tagged_ok, env_globals=True,
+            template_globals=True).generate()
+    tg = tape.draw(4)  # template-level global of 'main' (0 = none), the same for every task
     nt = 2 + tape.draw(3)
     specs = []
     for _ in range(nt):
@@ -183,6 +188,7 @@ def run(tape: Tape) -> Outcome:
     fk = 1 + tape.draw(16, "f") if fkind else 0
     fault = (fkind, ftask, fk)
 
+    TG[0] = tg
     gc_was = gc.isenabled()
     gc.disable()
     try:
@@ -220,7 +226,7 @@ def run(tape: Tape) -> Outcome:
         out.count("cache_size_%d" % cache_size)
         out.trace = digest([trace, results])
         out.decoded = {
-            "templates": P.templates, "tags": sorted(P.tags), "autoescape": ae, "loopcontrols": lc, "cache_size": cache_size,
+            "templates": P.templates, "tags": sorted(P.tags), "template_global_tg_of_main": tg, "autoescape": ae, "loopcontrols": lc, "cache_size": cache_size,
             "tasks": [{"task": f"r{i}", "entry": e, "api": ["render_async", "generate_async"][a], "data_seed": d}
                       for i, (e, a, d) in enumerate(specs)],
             "fault": {"kind": ["none", "cancel-peer", "peer-data-raises"][fkind], "task": f"r{ftask}", "k": fk, "fired": info["fired"]},
